@@ -9,7 +9,7 @@ from .. import faultrun, model, sig
 PROP = "C10"
 LEVEL = "fault_enumeration"
 MONITORS = ["crash_before_step", "torn_write", "file_old_or_new", "api_reads_old_or_new", "leftovers_bounded",
-            "atomic_policy"]
+            "atomic_policy", "reader_between_writer_steps"]
 DISTINCT = "nontrivial"
 RULE = (
     "Scenarios: job document, project document and state point cache writes with empty, small, >8 KiB and >64 KiB "
@@ -77,7 +77,10 @@ def gen_cases(ctx):
             if ctx.take(i):
                 yield dict(sc, part=part, nparts=4)
             i += 1
-    READER_CASES_PLACEHOLDER = None
+    for k in range(8):
+        if ctx.take(i):
+            yield {"target": "reader", "k": k}
+        i += 1
 
 
 SP = {"a": 1}
